@@ -605,6 +605,14 @@ impl IteratorRecord {
         completion: JsResult<JsValue>,
         context: &mut Context,
     ) -> JsResult<JsValue> {
+        // An error that scripts cannot catch (a runtime limit was hit) ends the whole activation
+        // chain: the iterator's `return` method is user code and must not run after it.
+        if let Err(err) = &completion
+            && !err.is_catchable()
+        {
+            return completion;
+        }
+
         // 1. Assert: Type(iteratorRecord.[[Iterator]]) is Object.
 
         // 2. Let iterator be iteratorRecord.[[Iterator]].
